@@ -522,3 +522,184 @@ Proof.
     rewrite (SWP eq_refl), list2msa_crossed, swaps_roundtrip by apply (mo_swaps _ _ OK).
     rewrite ROWS by reflexivity. reflexivity.
 Qed.
+
+(* ------------------------------------------------------------------ *)
+(* the block header and the block scanner *)
+Lemma take_until_app : forall c p r, ~ In c p -> take_until c (p ++ c :: r) = Some p.
+Proof.
+  intros c. induction p as [|x p IH]; intros r H.
+  - cbn [app take_until]. rewrite Z.eqb_refl. reflexivity.
+  - cbn [app take_until]. destruct (x =? c) eqn:E; [apply Z.eqb_eq in E; exfalso; apply H; left; exact E|].
+    rewrite IH by (intros I; apply H; right; exact I). reflexivity.
+Qed.
+
+Definition ref_ok (ref : str) : Prop := ~ In 62 ref /\ ~ In 32 ref /\ ~ In 61 ref.
+
+Lemma not_in_app : forall (x : Z) a b, ~ In x a -> ~ In x b -> ~ In x (a ++ b).
+Proof. intros x a b Ha Hb I. apply in_app_or in I. tauto. Qed.
+
+Lemma show_int_no : forall z x, x <> 45 -> is_digit x = false -> ~ In x (show_int z).
+Proof. intros z x N D I. destruct (show_int_chars _ _ I) as [E|E]; [exact (N E)|congruence]. Qed.
+
+Lemma attr_no : forall x k v, ~ In x k -> ~ In x v -> x <> 61 -> x <> 34 -> ~ In x (attr k v).
+Proof.
+  intros x k v Hk Hv N1 N2. unfold attr. apply not_in_app; [exact Hk|].
+  intros [E|[E|I]]; [congruence|congruence|]. apply in_app_or in I. destruct I as [I|[E|[]]]; [exact (Hv I)|congruence].
+Qed.
+
+Lemma key_piece_attr : forall k v, ~ In 61 k -> ~ In 61 v -> key_piece (attr k v) = Some (k, v).
+Proof.
+  intros k v Hk Hv. unfold key_piece, attr.
+  rewrite split_on_app_sep by exact Hk.
+  rewrite split_on_nosep.
+  - cbn [tl]. rewrite removelast_last. reflexivity.
+  - intros [E|I]; [discriminate E|]. apply in_app_or in I. destruct I as [I|[E|[]]]; [exact (Hv I)|discriminate E].
+Qed.
+
+Definition hdr_tmp (ref : str) (k : Z) : str := s_msa ++ 32 :: attr s_idk (show_int k) ++ 32 :: attr s_refk ref.
+
+Lemma header_shape : forall ref k m, m_cons m = None -> msa_header ref k m = 60 :: hdr_tmp ref k ++ 62 :: [].
+Proof.
+  intros ref k m E. unfold msa_header, hdr_tmp. rewrite E. rewrite app_nil_l.
+  rewrite <- !app_assoc. cbn [app]. rewrite <- !app_assoc. reflexivity.
+Qed.
+
+Lemma header_parse : forall ref k m, m_cons m = None -> ref_ok ref ->
+  block_dtype (msa_header ref k m) = Some s_msa
+  /\ block_keys (msa_header ref k m) = Some [(s_idk, show_int k); (s_refk, ref)].
+Proof.
+  intros ref k m E [R62 [R32 R61]]. rewrite (header_shape ref k m E).
+  assert (N62 : ~ In 62 (hdr_tmp ref k)).
+  { unfold hdr_tmp. apply not_in_app; [intros I; unfold s_msa in I; cbn [In] in I; repeat (destruct I as [I|I]; [discriminate I|]); exact I|].
+    intros [X|I]; [discriminate X|]. apply in_app_or in I. destruct I as [I|[X|I]]; [|discriminate X|].
+    - revert I. apply attr_no; [intros [X|[X|[]]]; discriminate X|apply show_int_no; [lia|reflexivity]|lia|lia].
+    - revert I. apply attr_no; [intros [X|[X|[X|[]]]]; discriminate X|exact R62|lia|lia]. }
+  assert (SP : split_on 32 (hdr_tmp ref k) = [s_msa; attr s_idk (show_int k); attr s_refk ref]).
+  { unfold hdr_tmp. rewrite split_on_app_sep by (intros I; unfold s_msa in I; cbn [In] in I; repeat (destruct I as [I|I]; [discriminate I|]); exact I).
+    rewrite split_on_app_sep by (apply attr_no; [intros [X|[X|[]]]; discriminate X|apply show_int_no; [lia|reflexivity]|lia|lia]).
+    rewrite split_on_nosep by (apply attr_no; [intros [X|[X|[X|[]]]]; discriminate X|exact R32|lia|lia]).
+    reflexivity. }
+  assert (M32 : memc 32 (hdr_tmp ref k) = true).
+  { unfold memc. apply existsb_exists. exists 32. split; [|reflexivity].
+    unfold hdr_tmp. apply in_or_app. right. left. reflexivity. }
+  unfold block_dtype, block_keys. rewrite take_until_app by exact N62. rewrite M32, SP. split; [reflexivity|].
+  cbn [tl map all_some].
+  rewrite key_piece_attr by first [solve [intros [X|[X|[]]]; discriminate X]|apply show_int_no; [lia|reflexivity]].
+  rewrite key_piece_attr by first [solve [intros [X|[X|[X|[]]]]; discriminate X]|exact R61].
+  reflexivity.
+Qed.
+
+Lemma prefixb_refl_app : forall p r, prefixb p (p ++ r) = true.
+Proof. induction p as [|x p IH]; intros r; [reflexivity|]. cbn [app prefixb]. rewrite Z.eqb_refl. apply IH. Qed.
+
+Lemma prefixb_lt : forall p l, starts 60 l = false -> prefixb (60 :: p) l = false.
+Proof.
+  intros p l H. destruct l as [|c r]; [reflexivity|]. cbn [prefixb]. cbn [starts] in H.
+  rewrite Z.eqb_sym. rewrite H. reflexivity.
+Qed.
+
+(* inside an open block every line is collected until the closing tag *)
+Lemma scan_block_body : forall body h dt acc d b mt close,
+  Forall (fun l => starts 60 l = false) body -> prefixb ([60; 47] ++ dt ++ [62]) close = true ->
+  fold_left read_step (body ++ [close]) (mk_racc false (Some (h, dt, acc)) d b mt)
+  = mk_racc false None d (mk_block h dt (rev acc ++ body) :: b) mt.
+Proof.
+  induction body as [|l body IH]; intros h dt acc d b mt close F P.
+  - cbn [app fold_left]. unfold read_step. cbn [ra_err ra_open ra_data ra_blocks ra_meta]. rewrite P.
+    rewrite app_nil_r. reflexivity.
+  - inversion F as [|? ? Hl Hr]; subst. cbn [app fold_left].
+    unfold read_step at 2. cbn [ra_err ra_open ra_data ra_blocks ra_meta].
+    change ([60; 47] ++ dt ++ [62]) with (60 :: (47 :: dt ++ [62])). rewrite (prefixb_lt _ l Hl).
+    rewrite IH by assumption. cbn [rev]. rewrite <- app_assoc. reflexivity.
+Qed.
+
+Lemma msa_body_no_lt : forall stamp m, Forall (fun l => starts 35 l = true) stamp ->
+  Forall (fun l => starts 60 l = false) (msa_body stamp m).
+Proof.
+  intros stamp m FS. unfold msa_body.
+  assert (A : forall w nm cells, starts 60 (ann_line w nm cells) = false) by reflexivity.
+  apply Forall_app. split.
+  - eapply Forall_impl; [|exact FS]. intros l H. destruct l as [|c r]; [reflexivity|]. cbn [starts] in *.
+    apply Z.eqb_eq in H. subst. reflexivity.
+  - constructor; [reflexivity|]. constructor; [apply A|]. constructor; [reflexivity|].
+    repeat (apply Forall_app; split).
+    + destruct (nullb (m_local m)); [constructor|]. constructor; [apply A|constructor].
+    + destruct (nullb (m_swaps m)); [constructor|]. constructor; [apply A|constructor].
+    + destruct (m_cons m) as [[|x c]|]; try constructor; [apply A|constructor].
+    + constructor; [reflexivity|]. apply Forall_forall. intros l I. apply in_map_iff in I. destruct I as [p [<- _]].
+      unfold msa_row_of, msa_row_line.
+      pose proof (show_int_nonempty (fst (fst p))) as NE.
+      destruct (show_int (fst (fst p))) as [|c r] eqn:E; [congruence|]. cbn [app starts].
+      assert (In c (show_int (fst (fst p)))) as I by (rewrite E; left; reflexivity).
+      destruct (show_int_chars _ _ I) as [->|D]; [reflexivity|]. unfold is_digit in D. lia.
+Qed.
+
+Definition entry_ok (e : Z * list str * msa) : Prop :=
+  msa_okb (snd e) = true /\ Forall (fun l => starts 35 l = true) (snd (fst e)).
+Definition blk_of (ref : str) (e : Z * list str * msa) : block :=
+  mk_block (msa_header ref (fst (fst e)) (snd e)) s_msa (msa_body (snd (fst e)) (snd e)).
+
+Lemma msa_okb_cons : forall m, msa_okb m = true -> m_cons m = None.
+Proof. intros m H. apply (mo_cons _ _ (msa_okb_ok m H)). Qed.
+
+Lemma scan_one_block : forall ref e a, ref_ok ref -> entry_ok e -> good a ->
+  fold_left read_step (msa_block ref e) a
+  = mk_racc false None (ra_data a) (blk_of ref e :: ra_blocks a) (ra_meta a).
+Proof.
+  intros ref [[k stamp] m] a RO [OK FS] [G1 G2]. cbn [fst snd] in *.
+  unfold msa_block. cbn [fold_left].
+  rewrite (read_step_skip a [35]) by (try (split; assumption); reflexivity).
+  destruct (header_parse ref k m (msa_okb_cons m OK) RO) as [HD HK].
+  assert (ST : read_step a (msa_header ref k m)
+               = mk_racc false (Some (msa_header ref k m, s_msa, [])) (ra_data a) (ra_blocks a) (ra_meta a)).
+  { unfold read_step. rewrite G1, G2, HD, HK. rewrite (header_shape ref k m (msa_okb_cons m OK)). reflexivity. }
+  rewrite ST.
+  rewrite scan_block_body; [reflexivity|apply msa_body_no_lt, FS|reflexivity].
+Qed.
+
+Lemma scan_blocks : forall ref ms a, ref_ok ref -> Forall entry_ok ms -> good a ->
+  fold_left read_step (concat (map (msa_block ref) ms)) a
+  = mk_racc false None (ra_data a) (rev (map (blk_of ref) ms) ++ ra_blocks a) (ra_meta a).
+Proof.
+  intros ref. induction ms as [|e ms IH]; intros a RO F G.
+  - cbn [map concat fold_left rev app]. destruct a as [er o d b mt]. destruct G as [G1 G2]. cbn in *. subst. reflexivity.
+  - inversion F as [|? ? He Hr]; subst. cbn [map concat]. rewrite fold_left_app.
+    rewrite scan_one_block by assumption. rewrite IH; [|exact RO|exact Hr|split; reflexivity].
+    cbn [ra_data ra_blocks ra_meta map rev]. rewrite <- app_assoc. reflexivity.
+Qed.
+
+Lemma scan_section : forall ref ms, ref_ok ref -> Forall entry_ok ms ->
+  scan (msa_section ref ms) = mk_racc false None [] (rev (map (blk_of ref) ms)) [].
+Proof.
+  intros ref ms RO F. unfold scan, msa_section. cbn [fold_left].
+  rewrite (read_step_skip racc0 []) by (try (split; reflexivity); reflexivity).
+  rewrite (read_step_skip racc0 (s_msa_ref ++ ref)) by (try (split; reflexivity); reflexivity).
+  rewrite scan_blocks; [|exact RO|exact F|split; reflexivity].
+  cbn [racc0 ra_data ra_blocks ra_meta]. rewrite app_nil_r. reflexivity.
+Qed.
+
+Lemma read_msas_blocks : forall ref ms, ref_ok ref -> Forall entry_ok ms ->
+  read_msas (map (blk_of ref) ms) = Ok (map (fun e => (ref, fst (fst e), expected_read (snd e))) ms).
+Proof.
+  intros ref. induction ms as [|[[k stamp] m] ms IH]; intros RO F; [reflexivity|].
+  inversion F as [|? ? [OK FS] Hr]; subst. cbn [fst snd] in *.
+  cbn [map read_msas]. unfold blk_of at 1. cbn [b_dtype b_head b_body fst snd].
+  change (str_eqb s_msa s_msa) with true. cbv iota.
+  destruct (header_parse ref k m (msa_okb_cons m OK) RO) as [_ HK]. rewrite HK.
+  change (assoc_str s_idk [(s_idk, show_int k); (s_refk, ref)]) with (Some (show_int k)).
+  change (assoc_str s_refk [(s_idk, show_int k); (s_refk, ref)]) with (Some ref).
+  cbv iota. rewrite parse_show_int, msa_body_roundtrip by assumption. rewrite IH by assumption. reflexivity.
+Qed.
+
+(* THE MSA SECTION: every cognate set comes back from its block - ids, taxa, aligned rows, plain
+   segments, LOCAL and CROSSED annotations - and the section leaves the reader ready for the data *)
+Theorem msa_section_roundtrip : forall ref ms, ref_ok ref -> Forall entry_ok ms ->
+  closed_pre (msa_section ref ms)
+  /\ read_msa_section (msa_section ref ms)
+     = Ok (map (fun e => (ref, fst (fst e), expected_read (snd e))) ms).
+Proof.
+  intros ref ms RO F. pose proof (scan_section ref ms RO F) as S. split.
+  - unfold closed_pre, good. rewrite S. repeat split.
+  - unfold read_msa_section, read_raw. rewrite S. cbn [ra_err ra_open ra_data ra_blocks ra_meta rev].
+    rewrite rev_involutive. apply read_msas_blocks; assumption.
+Qed.
